@@ -1,6 +1,7 @@
 # -*- coding: utf-8 -*-
 """Shared driver for C01-C04: run configurations through di_eval and book the findings that
 belong to the calling property."""
+import os
 import collections
 
 from .. import di_eval, gen_di
@@ -36,6 +37,10 @@ def drive(sh, prop, cfg, klass, requests=('hit', 'hit2', 'hit-slashes', 'hit-abs
         findings, info = di_eval.evaluate(cfg, requests=requests, stats=stats, shape_only=shape_only, traces=traces)
     except Exception as e:     # the harness itself failed: never silently
         import traceback
+        from ..common import REPO
+        frames = traceback.extract_tb(e.__traceback__)
+        if not any(fr.filename.startswith(os.path.join(REPO, 'clastic') + os.sep) or fr.filename.startswith('<sinter') for fr in frames):
+            raise           # my own machinery broke (no frame of clastic involved): the run ends INCONCLUSIVE, not with a verdict
         sh.violation('%s/harness-error' % prop, 'harness raised %r\n%s' % (e, traceback.format_exc()[-1500:]),
                      {'cfg': cfg})
         return None
